@@ -446,8 +446,9 @@ def evaluate(ctx, case):
                 continue
             if op[0] == "o":
                 ctx.count("op:o:" + str(op[1]))
-                if res != ("E", "TypeError") and not (str(op[1]).startswith("np") and res[0] == "M"):
-                    # (a numpy integer is an index for a Python list; the system refuses it today)
+                if res != ("E", "TypeError") and not (str(op[1]).startswith("np") and res[0] in ("M", "E")):
+                    # (a numpy integer is an index for a Python list; the system refuses it today; a system that takes
+                    # it answers a molecule or the error an int of that value gets: benign change C11-3)
                     ctx.oracle_fail("System.__getitem__(other type):not-a-TypeError", case, {"op": op, "got": res[:2]})
                     break
                 continue
@@ -524,9 +525,14 @@ def evaluate(ctx, case):
             m_comp = sorted(T.list(lambda: (T.str(), T.int()))) if T.tok() == "L" else ("E", T.tok())
             if isinstance(m_comp, list):
                 m_comp = [c for c in m_comp if c[1]]
-            if m_status != status:
+            if (m_status == "A") != (status == "A"):
                 ctx.disagree(case, f"add_ftop #{j} outcome", status, m_status)
                 return
+            if m_status != status:
+                # both refuse, with different exception classes: the property says "refused with an error" (the class the
+                # model predicts for a run cut off by the end of the file is numpy's broadcasting ValueError: an accident
+                # a maintainer may tidy up — benign change C11-3)
+                ctx.count(f"refusal-class-differs-from-model:{status}-vs-{m_status}")
             got = {"nmols": m_nmols, "len": m_len, "composition": m_comp}
             for f in got:
                 if got[f] != st[f]:
@@ -548,6 +554,12 @@ def evaluate(ctx, case):
                 m = ("T", T.str())
             else:
                 m = ("M", T.list(lambda: (T.int(), [[atoms[d] for d in r] for r in T.list(T.residue)])))
+            opk = case["ops"][k] if k < len(case["ops"]) else None
+            if m != res and opk and opk[0] == "o" and str(opk[1]).startswith("np") and res != ("E", "TypeError"):
+                # a numpy integer taken as an index: outside what the property (and the model, which refuses every
+                # index that is not an int or a slice) speaks about; judged by the oracle above only
+                ctx.count("model-not-compared:numpy-integer-index-accepted")
+                continue
             if m != res and "T" in (m[0], res[0]):
                 ctx.disagree(case, f"op {k} {case['ops'][k]}", res[1], m[1])
                 return
